@@ -92,6 +92,8 @@ fn workloads(prop: &str, thorough: bool) -> Vec<Work> {
             exh(&mut w, exhaustive::Phase::Edits);
         }
         "C02" => {
+            w.push(bridge(Prod, Random, 8, 500 * k, false, false));
+            w.push(bridge(Stamped, EphChain, 4, 500 * k, false, false));
             // large graphs (subprocesses): the lean driver checks progress / materialised inputs / quiescence after abort there too
             w.push(Work::Sweep { thorough: false });
             w.push(chains(Plain, EphChain, 4, 16000 * k));
@@ -139,6 +141,8 @@ fn workloads(prop: &str, thorough: bool) -> Vec<Work> {
             exh(&mut w, exhaustive::Phase::Edits);
         }
         "C05" => {
+            w.push(bridge(Prod, Random, 8, 500 * k, false, false));
+            w.push(bridge(Stamped, LateFail, 4, 500 * k, false, false));
             // large graphs (subprocesses): the lean driver checks progress / materialised inputs / quiescence after abort there too
             w.push(Work::Sweep { thorough: false });
             w.push(chains(Plain, Random, 8, 14000 * k));
@@ -173,6 +177,8 @@ fn workloads(prop: &str, thorough: bool) -> Vec<Work> {
             w.push(Work::Sweep { thorough: false });
         }
         "C07" => {
+            w.push(bridge(Stamped, LateFail, 4, 600 * k, false, false));
+            w.push(bridge(Prod, FailHist, 7, 500 * k, false, false));
             w.push(chains(Plain, Random, 8, 12000 * k));
             w.push(chains(Plain, LateFail, 4, 24000 * k));
             w.push(chains(Stamped, LateFail, 4, 8000 * k));
@@ -216,6 +222,8 @@ fn workloads(prop: &str, thorough: bool) -> Vec<Work> {
             exh(&mut w, exhaustive::Phase::Faults);
         }
         "C10" => {
+            w.push(bridge(Prod, AbortOffered, 7, 600 * k, false, false));
+            w.push(bridge(Stamped, Random, 8, 400 * k, false, false));
             // a rejected output change (EphemeralChangedOutput) followed by failures / an abort in the same evaluation
             for (conv, fam, n) in [(Plain, ValidatedEph, 4000u64), (Stamped, ValidatedEph, 2000), (Plain, EphChain, 2000)] {
                 let mut c = ChainCfg::new(conv, fam, 4);
@@ -261,6 +269,8 @@ fn workloads(prop: &str, thorough: bool) -> Vec<Work> {
             exh(&mut w, exhaustive::Phase::Edits);
         }
         "C13" => {
+            w.push(bridge(Stamped, ValidatedEph, 4, 600 * k, false, false));
+            w.push(bridge(Prod, Random, 8, 400 * k, false, false));
             // late failures that flip an early-skipped consumer while a cleanup offer is pending (C13-10)
             w.push(chains(Plain, LateFail, 4, 10000 * k));
             w.push(chains(Plain, EphFail, 4, 5000 * k));
@@ -272,6 +282,8 @@ fn workloads(prop: &str, thorough: bool) -> Vec<Work> {
             exh(&mut w, exhaustive::Phase::Faults);
         }
         "C14" => {
+            w.push(bridge(Prod, Random, 8, 500 * k, false, false));
+            w.push(bridge(Stamped, EphChain, 4, 400 * k, false, false));
             let mut c = ChainCfg::new(Plain, Random, 8);
             c.next_job_twin = true;
             w.push(Work::Chains { cfg: c, n: 10000 * k });
@@ -326,6 +338,8 @@ fn workloads(prop: &str, thorough: bool) -> Vec<Work> {
             w.push(chains(Stamped, ValidatedEph, 4, 8000 * k));
         }
         "C17" => {
+            w.push(bridge(Stamped, LateFail, 4, 500 * k, false, false));
+            w.push(bridge(Prod, AbortOffered, 7, 400 * k, false, false));
             // a rejected output change (EphemeralChangedOutput) followed by failures / an abort in the same evaluation
             for (conv, fam, n) in [(Plain, ValidatedEph, 4000u64), (Stamped, ValidatedEph, 2000), (Plain, EphChain, 2000)] {
                 let mut c = ChainCfg::new(conv, fam, 4);
